@@ -102,7 +102,7 @@ class HandoverServer(threading.Thread):
         log.debug("<<< %s", binascii.hexlify(octets).decode())
         try:
             records = list(ndef.message_decoder(octets, 'relax'))
-        except ndef.DecodeError as error:
+        except (ndef.DecodeError, UnicodeError) as error:
             log.error(repr(error))
             return b''
 
